@@ -137,6 +137,10 @@ func genMode(t *testing.T, p *props.Prop) {
 		}
 		rs := simrt.Mix(seed, p.ID, uint64(i))
 		os.WriteFile(progress, []byte(fmt.Sprintf("%d %d", i, rs)), 0o644)
+		if sum.Build == "race" {
+			// lets the orchestrator attribute race reports to a run
+			fmt.Fprintf(os.Stderr, "@@RUN %d %d\n", i, rs)
+		}
 		tape := simrt.NewTape(rs, forced)
 		res := props.Execute(t, p, tape, tier, false)
 		sum.Evaluations++
